@@ -171,7 +171,7 @@ def execute(G, c):
 def run(rep, tier):
     G = drivers.load()
     rep.rule = ("Hypothesis (MIB, base, method, max_repetitions, cap, version, driver) tuples; MIB 0..60 entries in a prefix tree over arcs "
-                "{0..3,126..129,255,256,16383..16385,2^21,2^28-1,2^32-1}; RFC 3416 model agent. Non-trivial = subtree has >=2 entries and "
+                "{0..3,126..129,255,256,16383..16385,2^21,2^28-1,2^32-1}; RFC 3416 model agent; a third of the cases run another (complete or abandoned) walk on the same session first. Non-trivial = subtree has >=2 entries and "
                 "the MIB has an entry after it, or the walk needs >=2 GetBulk requests, or the base ends in a multi-octet arc; distinct "
                 "by (cfg, MIB names, base, method, maxrep, cap).")
 
